@@ -139,6 +139,14 @@ func (e *Engine) strAt(st *State, s Value, idx *Term) *Term {
 		if c.K {
 			return c
 		}
+		if x.K && len(x.Str) <= 64 {
+			// constant table indexed symbolically: pure integer ite chain
+			el := make([]Value, len(x.Str))
+			for i := range el {
+				el[i] = KInt64(int64(x.Str[i]))
+			}
+			return e.iteChain(el, idx).(*Term)
+		}
 		n := e.name(c)
 		e.sol.Assert(Le(stripFacts(n), KInt64(255)))
 		return n
@@ -338,11 +346,11 @@ func (e *Engine) convert(st *State, v Value, from, to types.Type) Value {
 			return KStr("")
 		}
 		if eb != nil && eb.Kind() == types.Uint8 {
-			return StrBytes{Obj: s.Obj, Off: s.Off, Len: s.Len}
+			return e.snapshotBytes(st, s)
 		}
 		if eb != nil && eb.Kind() == types.Int32 {
 			e.res.Assumptions["string([]rune): runes are ASCII"]++
-			return StrBytes{Obj: s.Obj, Off: s.Off, Len: s.Len}
+			return e.snapshotBytes(st, s)
 		}
 	}
 	if _, ok := to.Underlying().(*types.Pointer); ok {
